@@ -1,4 +1,4 @@
-"""C13 — re-layouts and serialisations of images are lossless round trips (save/load: outside, see INFO)."""
+"""C13 — re-layouts and serialisations of images are lossless round trips (save/load: concrete bit-pattern facts only, see INFO)."""
 from __future__ import annotations
 
 import itertools
@@ -19,7 +19,10 @@ INFO = {
                  "0..3 leading axes with pairwise distinct sizes; every applicable round trip per cell; seeded chains of length <=3",
         "thorough": "all orders of every signature x all leading layouts x all split axes; 300 seeded chains",
     },
-    "outside": ["ml.save / ml.load (file I/O through eqx.tree_serialise_leaves / numpy's C serialiser cannot be encoded; that sentence of C13 is not claimed)",
+    "outside": ["ml.save / ml.load: file I/O through eqx.tree_serialise_leaves / numpy's C serialiser cannot be encoded, so that sentence of C13 is NOT "
+                "decided by the solver; the 'saveload' cells only record concrete structural facts (every array leaf, filled with pairwise distinct "
+                "float32 bit patterns incl. -0.0, a denormal, inf and a NaN payload, comes back bit-identical at the same tree path after the real "
+                "ml.save/ml.load into a differently initialised same-structured model, and the two models' outputs agree bit for bit)",
                 "float32 (pure data movement: exact)"],
     "assumptions": [],
 }
@@ -57,11 +60,91 @@ def cells(tier, seed):
         rng.shuffle(order)
         out.append({"D": D, "sig": si, "order": order, "shape": rng.choice(SHAPES[D]), "lead": rng.choice([(), (5,), (5, 7)]),
                     "chain": [rng.choice(TRIPS) for _ in range(rng.choice([2, 3]))]})
+    for mc in SAVELOAD_MODELS if tier == "thorough" else SAVELOAD_MODELS[:3]:
+        out.append({"kind": "saveload", "model": mc})
     return out
+
+
+SAVELOAD_MODELS = [
+    {"cls": "resnet", "D": 2, "sig": 1, "equiv": True, "norm": True, "depth": 2},
+    {"cls": "unet", "D": 2, "sig": 0, "equiv": False, "norm": True, "depth": 2},
+    {"cls": "dil", "D": 2, "sig": 2, "equiv": True, "depth": 1},
+    {"cls": "unet", "D": 2, "sig": 1, "equiv": True, "norm": True, "depth": 1},
+    {"cls": "resnet", "D": 3, "sig": 0, "equiv": False, "depth": 2},
+    {"cls": "block", "D": 2, "sig": 3, "equiv": True, "bias": "mean"},
+]
 
 
 def exhaustive(tier):
     return False
+
+
+def _saveload(cfg, cx):
+    """Concrete structural facts about the real ml.save / ml.load (not solver-decided; see INFO['outside'])."""
+    import os
+    import tempfile
+    import jax
+    import jax.numpy as jnp
+    import equinox as eqx
+    import ginjax.geometric as geom
+    import ginjax.ml as ml
+    from props import C20
+    mc = cfg["model"]
+    ckey = ":".join(f"{a}={mc[a]}" for a in sorted(mc))
+
+    def probe(special):
+        mA, in_sig, out_sig, _ = C20._build(dict(mc, seed=1))
+        mB, _, _, _ = C20._build(dict(mc, seed=2))
+        pA, sA = eqx.partition(mA, eqx.is_array)
+        leaves, td = jax.tree_util.tree_flatten(pA)
+        new, ctr = [], 0
+        for l in leaves:
+            if jnp.issubdtype(l.dtype, jnp.floating) and l.dtype == jnp.float32:
+                bits = (np.arange(l.size, dtype=np.uint32) + np.uint32(0x3F800000 + ctr)).reshape(l.shape)
+                if special and l.size >= 4:
+                    fb = bits.reshape(-1)
+                    fb[:4] = np.array([0x80000000, 0x00000001, 0x7F800000, 0x7FC00123], dtype=np.uint32)
+                ctr += l.size
+                new.append(jnp.asarray(bits.view(np.float32)))
+            else:
+                new.append(l)
+        mA2 = eqx.combine(jax.tree_util.tree_unflatten(td, new), sA)
+        fd, fn = tempfile.mkstemp(suffix=".eqx")
+        os.close(fd)
+        try:
+            ml.save(fn, mA2)
+            mL = ml.load(fn, mB)
+        finally:
+            os.unlink(fn)
+        lL, tdL = jax.tree_util.tree_flatten(eqx.filter(mL, eqx.is_array))
+        lA, tdA = jax.tree_util.tree_flatten(eqx.filter(mA2, eqx.is_array))
+        if tdL != tdA or len(lL) != len(lA):
+            return False, f"tree structure changed: {len(lA)} leaves saved, {len(lL)} loaded"
+        for i, (a, b) in enumerate(zip(lA, lL)):
+            a, b = np.asarray(a), np.asarray(b)
+            if a.shape != b.shape or a.dtype != b.dtype or a.tobytes() != b.tobytes():
+                return False, f"leaf {i} {a.shape} {a.dtype} differs after save/load (first bytes {a.tobytes()[:8].hex()} vs {b.tobytes()[:8].hex()})"
+        if special:
+            return True, f"{len(lA)} leaves, {ctr} float32 entries bit-identical"
+        D = mc["D"]
+        rng = np.random.default_rng(5)
+        N = 4
+        x = geom.MultiImage({q: jnp.asarray(rng.normal(size=(c,) + (N,) * D + (D,) * q[0]).astype(np.float32)) for q, c in in_sig}, D, True)
+        ya, yl = mA2(x), mL(x)
+        ya = ya[0] if isinstance(ya, tuple) else ya
+        yl = yl[0] if isinstance(yl, tuple) else yl
+        if list(ya.keys()) != list(yl.keys()):
+            return False, f"output types differ {list(ya.keys())} vs {list(yl.keys())}"
+        for q in ya.keys():
+            if np.asarray(ya[q]).tobytes() != np.asarray(yl[q]).tobytes():
+                return False, f"output block {q} of the loaded model differs from the saved model's"
+        return True, f"{len(lA)} leaves, {ctr} float32 entries and the outputs bit-identical"
+
+    for special in (False, True):
+        ok, det = probe(special)
+        cx.structural(f"saveload[{'special bit patterns' if special else 'distinct patterns + outputs'}]", ok, det,
+                      replay=lambda v, b, special=special: (lambda r: (not r[0], r[1]))(probe(special)),
+                      key=f"saveload:{int(special)}:{ckey}")
 
 
 def _trip(name, m, geom, jax, jnp, n_lead, rec):
@@ -134,6 +217,8 @@ def run_cell(cfg, cx):
     import ginjax.geometric as geom
     from jxsmt import sym as S, interp as I
 
+    if cfg.get("kind") == "saveload":
+        return _saveload(cfg, cx)
     D = cfg["D"]
     sg = [(tuple(kp), c) for kp, c in SIGS[D][cfg["sig"]]]
     sg = [sg[i] for i in cfg["order"]]
